@@ -563,6 +563,22 @@ def call_builtin(models, eng, name, args, kws, st, node):
         return int_to_bytes(models, eng, args, kws, st)
     if name == 'int.from_bytes':
         return int_from_bytes(models, eng, args, kws, st)
+    if name == 'open':
+        # a binary file: 'rb' -> arbitrary content, positioned at 0; 'w+b'/'wb' -> empty.  Under the adversarial stream mode it is
+        # an adversarial stream like any other.  (open() itself failing - missing file, permissions - is outside the properties.)
+        mode = args[1] if len(args) > 1 else kws.get('mode')
+        mtxt = mode.t.args[0] if isinstance(mode, VStr) and mode.t is not None and mode.t.op == 'strlit' else None
+        if mtxt not in ('rb', 'wb', 'w+b'):
+            raise OutOfReach('open() with mode %r' % (mtxt,))
+        if models.stream_mode == 'adv':
+            ref = streams.symbolic_stream(eng, st, 'file', 'adv')
+        elif mtxt == 'rb':
+            ref = streams.symbolic_stream(eng, st, 'file', 'bytesio')
+            st.assume(t.eq(st.get(ref).pos, t.ZERO))
+        else:
+            ref = streams.new_bytesio(eng, st)
+        st.get(ref).is_file = True
+        return [(st, ref)]
     if name == 'io.BytesIO':
         if not args:
             return [(st, streams.new_bytesio(eng, st))]
